@@ -1,6 +1,7 @@
 package main
 
 import (
+	"fmt"
 	"go/types"
 )
 
@@ -110,6 +111,41 @@ func init() {
 	}
 	reg("net.Conn.Close", closer("net.Conn"))
 	reg("net.Listener.Close", closer("net.Listener"))
+	// syscall.RawConn.Control(f): f runs once on the descriptor unless the connection is already closed, in which case
+	// an error is returned and f does not run; the error is the runtime's own. Results of the ghost history of Control
+	// are recorded like a contract call (ncalls / lastres) so that callers can state what happens to its error.
+	rawCtl := func(c *callCtx) Val {
+		ex := c.ex
+		f := c.args[1]
+		e := ex.freshVal(errorT(), c.st, "ctlerr")
+		ex.assumeExternalError(e)
+		if f.F != nil && f.F.Fn != nil && c.fr != nil && ex.pure == 0 {
+			ran := ex.name("ctlran", and(c.r(), eq(e.L[0], "0")), sBool)
+			st2 := c.st.clone()
+			fd := ex.freshVal(types.Typ[types.Uintptr], st2, "fd")
+			ex.callFn(c.fr, f.F.Fn, []Val{fd}, f.F.Bind, st2, &ran, c.instr, nil)
+			m := ex.mergeStates([]string{eq(e.L[0], "0")}, []*State{st2, c.st})
+			*c.st = *m
+		} else if ex.pure == 0 {
+			ex.havocAll(c.st, "RawConn.Control with a non-static function")
+		}
+		if ex.pure == 0 {
+			nk := "X|ncalls.RawConn.Control"
+			ex.registerKey(nk, sInt)
+			prev := ex.heapGet(c.st, nk, sInt)
+			ex.setH(c.st, nk, ex.name("ncalls", ite(c.r(), app("+", prev, "1"), prev), sInt))
+			ex.lastResTypes["RawConn.Control.0"] = errorT()
+			for j, l := range leaves(errorT()) {
+				rk := fmt.Sprintf("X|lastres.RawConn.Control.0.%d", j)
+				ex.registerKey(rk, l.Sort)
+				pv := ex.heapGet(c.st, rk, l.Sort)
+				ex.setH(c.st, rk, ex.name("lres", ite(c.r(), e.L[j], pv), l.Sort))
+			}
+		}
+		ex.used["library model: syscall.RawConn.Control runs its argument once on success (A-OS)"] = true
+		return e
+	}
+	reg("syscall.RawConn.Control", rawCtl)
 	reg("net.Conn.SetDeadline", func(c *callCtx) Val {
 		e := c.ex.freshVal(errorT(), c.st, "sderr")
 		c.ex.assumeExternalError(e)
